@@ -29,7 +29,7 @@ UNIT = Unit(
         Fn(S, "new", impl="StakeSet", home="C13", implicit_props=("C09", "C13"), sig_subst=[("impl Iterator<Item = (TxHash, StakeDoc)>", "Vec<(TxHash, StakeDoc)>")], **ss_new()),
         Fn(S, "add_stake", impl="StakeSet", home="C13", implicit_props=("C09", "C13"), **ss_add_stake()),
         Fn(S, "get_stake", impl="StakeSet", home="C13", implicit_props=("C09", "C13"), **ss_get_stake()),
-        Fn(S, "is_frozen", impl="StakeSet", home="C13", implicit_props=("C09", "C13"), ensures=[C("frozen", "res == (self@.contains_key(coin.txhash) && coin.index == 0)", "C13", note="the frozen coin of a registered stake is output 0 of the staking transaction")]),
+        Fn(S, "is_frozen", impl="StakeSet", home="C13", implicit_props=("C09", "C13"), **ss_is_frozen()),
         Fn(S, "unlock_old", impl="StakeSet", home="C13", implicit_props=("C09", "C13"), **ss_unlock_old(),
            closures=[Closure(0, "_k: &TxHash, v: &StakeDoc", "(r: bool)", ensures=[C("pred", "r == (v.e_post_end >= epoch)", "C13")])]),
         Fn(S, "votes", impl="StakeSet", home="C13", implicit_props=("C09", "C13", "C14"), **ss_votes(),
